@@ -4,18 +4,18 @@
 //
 // batch file: one input per line
 //   <id> <entry> <newxta 0|1> <builder> <part> <ctx_b64|-> <input_b64|->
-//     entry   : xmlbuf | xmlfile | xta | prop | part
+//     entry   : xmlbuf | xmlfile | xta | prop | part (in the builder context the XML reader sets up) | partraw (fresh builder)
 //     builder : doc | tiga | pretty
 //     part    : name of an xta_part_t value (only read when entry == part), else "-"
 //     ctx     : doc/pretty + part: global declarations parsed first (the XML reader would have parsed the enclosing
 //               <declaration>); tiga: the model (XML if it starts with '<', else XTA) the queries are parsed against
 // Every input runs in a forked child (a crash identifies its input) under a CPU-time budget
 // (cpu_base_ms + cpu_us_per_byte*len)*mult [ITIMER_PROF; robust on a loaded machine] and a wall-clock back stop
-// (4x that + 20 s) [ITIMER_REAL].  One canonical line per input on stdout:
+// (25x that + 60 s) [ITIMER_REAL].  One canonical line per input on stdout:
 //   <id> ok <detail> wall_ms cpu_ms
 //   <id> exception:<class> <detail> wall_ms cpu_ms             (anything derived from std::exception: PASS)
 //   <id> nonstd-exception - wall_ms cpu_ms                      (FAIL)
-//   <id> timeout:<cpu|wall> <b64 of two stack samples taken at the time out> wall_ms cpu_ms
+//   <id> timeout:<cpu|wall> <b64 of 30 stack samples taken at the time out> wall_ms cpu_ms
 //                                                               (FAIL after the 5x re-run of the python side)
 //   <id> crash:<exit|signal>:<n> <b64 of child's stderr (sanitizer report)> wall_ms cpu_ms   (FAIL)
 // The python side extracts the key (top UTAP frame) from the raw report (module+offset frames, symbolised in bulk).
@@ -310,7 +310,8 @@ static void runJob(const Job& j, Detail& d)
         close(fd);
     };
     xta_part_t part = S_XTA;
-    if (j.entry == "part") {
+    const bool raw = j.entry == "partraw";  // parse_XTA(str, builder, newxta, part, xpath) on a fresh builder, no context calls
+    if (j.entry == "part" || raw) {
         auto it = partMap().find(j.part);
         if (it == partMap().end()) throw std::runtime_error("harness: unknown part " + j.part);
         part = it->second;
@@ -338,7 +339,7 @@ static void runJob(const Job& j, Detail& d)
             DocumentBuilder b(doc);
             if (nx) parse_XTA(utap_builtin_declarations(), &b, nx, S_DECLARATION, "");
             if (!j.ctx.empty()) parse_XTA(j.ctx.c_str(), &b, nx, S_DECLARATION, "/nta/declaration");
-            d.rc = parsePartInContext(&b, j.input, nx, part, true);
+            d.rc = parsePartInContext(&b, j.input, nx, part, !raw);
             if (!doc.has_errors()) {  // what static_analysis() of typechecker.cpp does
                 TypeChecker checker{doc};
                 doc.accept(checker);
@@ -362,7 +363,7 @@ static void runJob(const Job& j, Detail& d)
                 d.rc = parseProperty(buf, &pp);
             else {
                 if (!j.ctx.empty()) parse_XTA(j.ctx.c_str(), &pp, nx, S_DECLARATION, "");
-                d.rc = parsePartInContext(&pp, j.input, nx, part, true);
+                d.rc = parsePartInContext(&pp, j.input, nx, part, !raw);
             }
         }
         d.outBytes = os.str().size();
@@ -395,16 +396,16 @@ extern "C" void __sanitizer_print_stack_trace(void);
 static void setTimer(int which, double ms);
 static volatile sig_atomic_t profCount = 0;
 
-/// CPU budget exhausted: print two stack samples 40 ms (CPU) apart, then exit(79).  The python side keys the hang by the
-/// innermost libutap frame common to both samples (the frame that contains the loop).
+/// CPU budget exhausted: print 30 stack samples 8 ms (CPU) apart, then exit(79).  The python side keys the hang by the
+/// deepest libutap frame that is on the stack in >= 90% of the samples.
 static void onProf(int)
 {
-    const char* m = profCount == 0 ? "\n==C01-TIMEOUT-SAMPLE-1==\n" : "\n==C01-TIMEOUT-SAMPLE-2==\n";
+    const char* m = "\n==C01-TIMEOUT-SAMPLE==\n";
     if (write(2, m, strlen(m)) < 0) {}
-    if (profCount == 0) setTimer(ITIMER_REAL, 8000);  // back stop if printing dead-locks
+    if (profCount == 0) setTimer(ITIMER_REAL, 15000);  // back stop if printing dead-locks
     __sanitizer_print_stack_trace();
-    if (profCount++ == 0) {
-        setTimer(ITIMER_PROF, 40);
+    if (++profCount < 30) {
+        setTimer(ITIMER_PROF, 8);
         return;
     }
     _exit(79);
@@ -460,7 +461,7 @@ int main(int argc, char** argv)
         if (ctx != "-") j.ctx = b64dec(ctx);
         if (inp != "-") j.input = b64dec(inp);
         double cpuMs = (baseMs + usPerByte * (double)(j.input.size() + j.ctx.size()) / 1000.0) * mult;
-        double wallMs = 4 * cpuMs + 20000;
+        double wallMs = 25 * cpuMs + 60000;  // only for calls that block without using CPU; generous: the box may be loaded
         if (ftruncate(errfd, 0) != 0) {}
         lseek(errfd, 0, SEEK_SET);
         int pfd[2];
@@ -510,7 +511,7 @@ int main(int argc, char** argv)
         else {
             std::string rep;
             off_t sz = lseek(errfd, 0, SEEK_END);
-            size_t want = (size_t)std::min<off_t>(sz, 48 * 1024);
+            size_t want = (size_t)std::min<off_t>(sz, (cpuTimeout || wallTimeout) ? 256 * 1024 : 48 * 1024);
             lseek(errfd, (cpuTimeout || wallTimeout) ? sz - (off_t)want : 0, SEEK_SET);  // samples are at the end
             rep.resize(want);
             size_t got = 0;
